@@ -29,7 +29,8 @@ _deny("saves / restores or reinitialises processor state wholesale (not expressi
       "fnsave fsave frstor fldenv fnstenv fstenv fldcw ldmxcsr vldmxcsr fninit finit")
 _deny("implicit effect on the whole vector / x87 register file, not modelled by the RW API", "vzeroall vzeroupper emms femms")
 _deny("writes a segment base / protection key", "wrfsbase wrgsbase wrpkru")
-_deny("loads a segment register / reads descriptor-table registers", "lfs lgs lss lds les sgdt sidt sldt smsw str")
+_deny("loads a segment register / stores a descriptor-table register (6/10 byte pseudo descriptor)", "lfs lgs lss lds les sgdt sidt")
+_deny("UMIP: not executed by the CPU in user mode but emulated by the kernel (the emulation writes operand-size bytes without zero extension - observed)", "sldt smsw str")
 _deny("address is implied by registers that are not memory operands (xlatb: [rbx+al]; movdir64b/enqcmd: es:[reg])", "xlatb movdir64b enqcmd enqcmds clzero")
 _deny("transactional / user-interrupt / shadow-stack control", "xbegin xend xabort xtest clui stui testui uiret senduipi")
 _deny("AMX tile state (needs XTILEDATA permission); table-checked only", "ldtilecfg sttilecfg tilerelease")
@@ -72,6 +73,8 @@ def exclusion(form, host, known_features, mode=64):
         if form["prefix"]:
             return ("not-in-32-bit-pass", "VEX/EVEX/XOP form")
         for o in form["operands"]:
+            if o["reg"] and op_class(o) == "sreg" and not o["write"]:
+                continue
             if o["reg"] and not (o["reg"] in G.FIXED_REGS and G.FIXED_REGS[o["reg"]][0].startswith("gp")) and op_class(o) not in ("gp8", "gp16", "gp32"):
                 return ("not-in-32-bit-pass", "operand class")
             if o.get("vsibReg"):
@@ -85,6 +88,8 @@ def exclusion(form, host, known_features, mode=64):
             cls = op_class(o)
             if cls is None:
                 return ("operand", "register kind " + o["reg"])
+            if cls == "sreg" and not o["write"]:
+                continue   # reading a segment register (mov r, sreg) is unprivileged and changes nothing
             if cls in BAD_REG_CLASSES:
                 return ("system-register" if cls != "tmm" else "amx", "operand class " + cls)
             if o["reg"] in G.FIXED_REGS and G.FIXED_REGS[o["reg"]][0] == "sreg":
@@ -247,6 +252,8 @@ class CaseGen:
                 return list(range(0, 8))
             if grp == "k":
                 return list(range(0, 8))
+            if grp == "sreg":
+                return [1, 2, 3, 4, 5, 6]   # es cs ss ds fs gs
             return list(range(0, 8))
 
         def pick(grp, cls, n=1):
@@ -289,7 +296,7 @@ class CaseGen:
                 ops.append(("R",) + G.FIXED_REGS[reg])
                 continue
             cls = op_class(o)
-            if cls is None or cls in BAD_REG_CLASSES:
+            if cls is None or (cls in BAD_REG_CLASSES and not (cls == "sreg" and not o["write"])):
                 return None
             grp = group_of(cls)
             rel = o.get("regIndexRel") or 0
@@ -408,8 +415,34 @@ class CaseGen:
         mask and reg/mem choice of a form reports under the same key"""
         return form_sig(form)
 
-    def make_case(self, form, tag, probe=False, mode=64):
-        r = self.instantiate(form, tag, mode)
+    def width_cases(self, form, mode=64):
+        """the `d` assignment with ONE free general-purpose register operand given another width (16/32/64): the same database
+        form asked and executed at every operand width the validator and the assembler accept for it (movmskps r64, pextrw r64,
+        kmovd r64 ... - widths the database does not list as forms of their own). The driver drops what they refuse."""
+        r = self.instantiate(form, "d", mode)
+        if r is None:
+            return []
+        ops, opts, extra, meta = r
+        widths = ("gp16", "gp32", "gp64") if mode == 64 else ("gp16", "gp32")
+        out = []
+        for i, (o, op) in enumerate(zip(form["operands"], ops)):
+            if op[0] != "R" or op[1] not in widths or o["reg"] in G.FIXED_REGS or (o.get("regIndexRel") or 0):
+                continue
+            for w in widths:
+                if w == op[1]:
+                    continue
+                ops2 = list(ops)
+                ops2[i] = ("R", w, op[2])
+                m2 = dict(meta)
+                m2["w"] = (i, w)
+                c = self.make_case(form, "w", mode=mode, inst=(ops2, opts, extra, m2))
+                if c is not None:
+                    c["wop"], c["wwidth"], c["wwritten"] = i, w, bool(o["write"])
+                    out.append(c)
+        return out
+
+    def make_case(self, form, tag, probe=False, mode=64, inst=None):
+        r = inst or self.instantiate(form, tag, mode)
         if r is None:
             return None
         ops, opts, extra, meta = r
@@ -429,6 +462,8 @@ class CaseGen:
             fx += "z"    # destination undefined when the source is 0 (ZF=1): keeping the old value is not a defined result
         if meta.get("u"):
             fx += "uM"
+        if meta.get("w"):
+            fx += "w"
         if probe:
             fx += "pM"
         if name in ("insertps", "vinsertps") and any(op[0] == "I" and (op[1] & 0xC0) for op in ops):
